@@ -45,6 +45,10 @@ def run(res, replay=None):
                     p = [anchor[a] + width[a] * rng.unit() * 0.999 for a in range(3)]
                 p = [min(max(p[a], anchor[a]), C.next_up(anchor[a] + width[a], -2)) for a in range(3)]
                 pts.append(p)
+            if i % 5 == 4 and n >= 3:
+                # coincident particles (bit-identical positions): the other particle at distance 0 is the nearest neighbour
+                for _ in range(rng.range(1, 3)):
+                    pts[rng.below(n)] = list(pts[rng.below(n)])
             k = min(n - 1, rng.choice([0, 1, 2, min(5, n - 1), n - 1, rng.below(n)]))
             cases.append({"kind": "knn", "cubic": cubic, "anchor": anchor, "width": width, "mcw": mcw, "k": k, "pts": pts})
         # adversarial family for the ring-termination bound: anisotropic grid cells; P just below a face on a thin axis t, Q two cells away along t,
@@ -134,7 +138,7 @@ def run(res, replay=None):
                     if c["op"] == "epos6s":
                         toks.append(str(C.f2b(r)))
             f.write(" ".join(toks) + "\n")
-    rc, impl, _ = C.run_impl(C.build_harness("debug"), cf, os.path.join(wd, "c20.out"))
+    rc, impl, _ = C.run_impl(C.build_harness("debug"), cf, os.path.join(wd, "c20.out"), stall=45)
     for i, c in enumerate(cases):
         o = impl.get(i)
         ctx = {"case": c}
